@@ -21,6 +21,8 @@ def _judge(atoms, allow_size_params=()):
     bad = []
     for a in atoms:
         s = strip(a)
+        if a[0] == 'len':
+            continue      # a length / count only decides how many values are drawn, not what they are
         if a[0] == 'o':
             if not a[1].endswith(APPROVED_ORIGINS):
                 bad.append(a)
@@ -126,6 +128,28 @@ def rule_draw_in_loop(ctx, cfg='prod-all', rule='RF-G2'):
         inside = bool(loops) and src_block is not None and all(src_block in bl for h, bl in loops)
         detail.append({'push_block': bi, 'draw_block': src_block, 'in_same_loop': inside})
         ok = ok and inside
+    if not pushes:
+        # iterator form: `(0..count).map(|_| draw()).collect()` - the closure is evaluated once per element and its value is a call made inside it
+        fd = zf.fd
+        for bi, t in b.calls():
+            if (t.get('callee') or '') == 'std::iter::Iterator::map' and len(t['args']) == 2 and t['args'][1]['k'] in ('copy', 'move'):
+                ci = fd._closure_info(t['args'][1]['pl']['l'])
+                if ci is None:
+                    continue
+                czf = za.zf(ci[0])
+                l, drawn = 0, None
+                for _ in range(6):
+                    d = czf.single_def(l)
+                    if d and d[0] == 'call':
+                        drawn = d[2].get('callee')
+                        break
+                    if d and d[0] == 'assign' and d[2]['rv']['k'] == 'use' and d[2]['rv']['op']['k'] in ('copy', 'move') and not d[2]['rv']['op']['pl'].get('p'):
+                        l = d[2]['rv']['op']['pl']['l']
+                        continue
+                    break
+                detail.append({'map_closure': ci[0].split('::')[-1], 'element_is_result_of': drawn, 'captures': len(ci[1])})
+                # the value must be produced inside the closure (a captured, pre-drawn value would repeat)
+                ok = drawn is not None
     retlen = za.summary(fn)['retlen'].get(())
     yield Ob(rule, '%s#draw-per-element' % fn, ok, 'every pushed scalar is drawn by a call inside the pushing loop (no hoisted / repeated value)', b.span,
              fact=detail, expected='draw inside loop')
